@@ -27,7 +27,7 @@ def abstract_post(sess, o, out):
     cfg = sess.cfg
     if not o.get('exists'):
         return {'gone': True, 'out': out, 'rows': [], 'tail': 0, 'descr': {'k': 'absent'}, 'readme': {'k': 'absent'},
-                'meta': {'k': 'absent'}, 'hlen': 0, 'mode': 'r', 'mmode': 'r', 'fresh': [-1]}
+                'meta': {'k': 'absent'}, 'hlen': 0, 'mode': 'r', 'mmode': 'r', 'fresh': [-1], 'ctx': False}
     tb = o['tail_bytes']
     tail = 0 if tb == 0 else max(1, min(3, round(4 * tb / cfg.rowbytes)))
     fr = o['fresh']
@@ -36,12 +36,14 @@ def abstract_post(sess, o, out):
             'readme': o['readme'] if o['readme'].get('k') == 'ok' else {'k': str(o['readme'].get('k'))},
             'meta': {'k': 'ok', 'd': o['meta']['d']} if o['meta'].get('k') == 'ok' else {'k': o['meta']['k']},
             'hlen': o['live'].get('hlen', -1), 'mode': o['live'].get('mode', '?'), 'mmode': o['live'].get('mmode', '?'),
+            'ctx': bool(getattr(sess, 'ctxs', None)),
             'fresh': [-1] if 'raises' in fr else list(fr['rows'])}
 
 
 def random_history(args):
     seed, cfgkey, nops, big = args
     rnd = random.Random(seed)
+    ctxops = seed % 3 == 0          # a third of the histories also use open_array() contexts
     cfg = Config(*cfgkey[:3], form=cfgkey[3], valset=cfgkey[4], iterform=cfgkey[5], nids=NIDS)
     sess = TSess(cfg, metaset=seed, keyset=seed // 3)
     try:
@@ -56,14 +58,17 @@ def random_history(args):
         for _ in range(nops):
             n = len(sess.a) if sess.a is not None else 0
             kind = rnd.choices(['append', 'iterappend', 'badappend', 'truncate', 'setitem', 'mode', 'reopen', 'meta', 'noniter',
-                                'metamode'], weights=[4, 6, 1, 4, 3, 2, 2, 4, 0.3, 1])[0]
+                                'metamode', 'ctx'], weights=[4, 6, 1, 4, 3, 2, 2, 4, 0.3, 1, 1.5 if ctxops else 0])[0]
+            inctx = bool(getattr(sess, 'ctxs', None))
+            if inctx and kind in ('truncate', 'reopen'):
+                kind = 'ctx' if rnd.random() < 0.5 else 'append'     # not modelled inside a context
 
             def chunk():
                 return [rnd.randrange(1, NIDS + 1) for _ in range(rnd.choice([0, 1, 1, 2, 3, 5] if big else [0, 1, 2]))]
             if kind == 'append':
                 c = chunk()
                 f = {'kind': 'none'}
-                if c and rnd.random() < 0.15 and cfg.rowbytes >= 4:
+                if c and rnd.random() < 0.15 and cfg.rowbytes >= 4 and not inctx:
                     f = {'kind': 'write', 'at': 1, 'k': rnd.randrange(len(c)), 'b': rnd.randrange(4)}
                 ev = {'op': 'IA_Call', 'cs': [c], 'f': f, 'via': 'append'}
                 call = ('IA_Call', [(tuple(c),), f, 'append'])
@@ -71,15 +76,17 @@ def random_history(args):
                 cs = [chunk() for _ in range(rnd.choice([0, 1, 2, 3, 5] if big else [0, 1, 2]))]
                 f = {'kind': 'none'}
                 r = rnd.random()
-                if r < 0.2:
+                if r < 0.2 and not inctx:
                     f = {'kind': rnd.choice(['raise', 'shape', 'rank', 'conv']), 'at': len(cs) + 1}
-                elif r < 0.35 and cs and cs[-1] and cfg.rowbytes >= 4:
+                elif r < 0.35 and cs and cs[-1] and cfg.rowbytes >= 4 and not inctx:
                     f = {'kind': 'write', 'at': len(cs), 'k': rnd.randrange(len(cs[-1])), 'b': rnd.randrange(4)}
                 ev = {'op': 'IA_Call', 'cs': cs, 'f': f, 'via': 'iterappend'}
                 call = ('IA_Call', [tuple(tuple(c) for c in cs), f, 'iterappend'])
             elif kind == 'noniter':
                 ev = {'op': 'IA_Call', 'cs': [], 'f': {'kind': 'none'}, 'via': 'noniter'}
                 call = ('IA_Call', [(), {'kind': 'none'}, 'noniter'])
+            elif kind == 'badappend' and inctx:
+                continue
             elif kind == 'badappend':
                 kd = rnd.choice(['shape', 'rank', 'conv'])
                 ev = {'op': 'IA_CallBadAppend', 'kd': kd}
@@ -105,6 +112,14 @@ def random_history(args):
                 m = rnd.choice(['r', 'r+'])
                 ev = {'op': 'SetMetaMode', 'm': m}
                 call = ('SetMetaMode', [m])
+            elif kind == 'ctx':
+                if inctx:
+                    ev = {'op': 'ExitCtx'}
+                    call = ('ExitCtx', [])
+                else:
+                    m = rnd.choice(['default', 'default', 'r', 'r+'])
+                    ev = {'op': 'EnterCtx', 'm': m}
+                    call = ('EnterCtx', [m])
             else:
                 kd = rnd.choice(['update', 'setitem', 'update0', 'updatebad', 'pop', 'popd', 'popitem', 'del'])
                 key, v = rnd.choice(['k1', 'k2']), rnd.choice([1, 2])
@@ -162,7 +177,7 @@ c_RowIds == 1..%d
 c_Ints == -100000..100000
 c_Keys == {%s}
 c_Vals == 1..%d
-c_Ops == {"append", "truncate", "setitem", "mode", "reopen", "meta", "delete", "metamode"}
+c_Ops == {"append", "truncate", "setitem", "mode", "reopen", "meta", "delete", "metamode", "ctx"}
 c_Zero == {0}
 c_Modes == {"r", "r+"}
 c_Focus == "%s"
